@@ -276,6 +276,24 @@ package collect
 //@   loop 1 exits[stops-only-when-enough-or-empty] totalDataSizeSent > sendEarlyBytes || iter == len(allTraces)
 //@   modifies cl.lastCacheSize, all(recN), all(recKept), all(recID), all(recRate), all(sendN), all(sendLastReason), all(sendLastTrace), all(sentN), all(cached), cl.datasetSamplers, field(types.Trace, Sent), field(types.Trace, sampleRate), field(types.Trace, KeepSample), field(types.Event, Data.MetaSpanEventCount), field(types.Event, Data.MetaSpanLinkCount), field(types.Event, Data.MetaSpanCount), field(types.Event, Data.MetaEventCount), field(types.Event, Data.memoizedFields), field(types.Event, Data.missingFields)
 
+// checkAlloc: over budget, every worker is asked exactly once to release an equal share of the overage;
+// within budget nobody is asked.
+//@ ghost sent_bytesToSend(ref, int) int
+//@ contract config.CollectionConfig.GetMaxAlloc inline
+//@ assume config.Config.GetCollectionConfig getter
+//@ assume collect.(*CollectorWorker).GetCacheSize getter
+//@ contract collect.(*InMemCollector).checkAlloc props C07
+//@   arith math
+//@   requires i != nil && len(i.workers) > 0 && len(i.memMetricSample) > 0
+//@   requires[workers-built] forall k int :: 0 <= k && k < len(i.workers) ==> i.workers[k] != nil
+//@   requires[own-channels] forall a int, b int :: 0 <= a && a < b && b < len(i.workers) ==> toInt(refOf(i.workers[a].sendEarly)) != toInt(refOf(i.workers[b].sendEarly))
+//@   ensures[all-workers-asked-once-or-none] (forall k int :: 0 <= k && k < len(i.workers) ==> sentN(i.workers[k].sendEarly) == old(sentN(i.workers[k].sendEarly)) + 1) || (forall k int :: 0 <= k && k < len(i.workers) ==> sentN(i.workers[k].sendEarly) == old(sentN(i.workers[k].sendEarly)))
+//@   loop 1 invariant[over-budget-equal-shares] maxAlloc != 0 && toInt(currentAlloc) >= toInt(maxAlloc) && (toInt(currentAlloc) - toInt(maxAlloc) < 1<<62 ==> perWorkerToRemove == (toInt(currentAlloc) - toInt(maxAlloc)) / len(i.workers))
+//@   loop 1 invariant[asked-so-far] (forall k int :: 0 <= k && k < iter ==> sentN(i.workers[k].sendEarly) == old(sentN(i.workers[k].sendEarly)) + 1 && sent_bytesToSend(i.workers[k].sendEarly, old(sentN(i.workers[k].sendEarly))) == perWorkerToRemove) && (forall k int :: iter <= k && k < len(i.workers) ==> sentN(i.workers[k].sendEarly) == old(sentN(i.workers[k].sendEarly)))
+//@   loop 1 exits[everyone-asked] iter == len(i.workers)
+//@   loop 2 invariant forall k int :: 0 <= k && k < len(i.workers) ==> sentN(i.workers[k].sendEarly) == old(sentN(i.workers[k].sendEarly)) + 1
+//@   modifies all(sentN), all(sent_bytesToSend)
+
 // ---- C15: stress relief switches with hysteresis on a bounded stress level
 
 //@ contract collect.clamp props C15
